@@ -454,7 +454,7 @@ func init() {
 				if th {
 					return 4
 				}
-				return 3
+				return 4
 			}}
 	}
 }
